@@ -24,6 +24,8 @@ pub enum ProgressEvent {
     TaskOutput { build: usize, line: Vec<u8> },
     TaskFinished { build: usize, termination: Termination, output: Vec<u8> },
     Log(String),
+    /// One frame as the fancy console painted it (shadow display only).
+    Frame(Vec<u8>),
 }
 
 /// Callbacks a harness can install.  All have no-op defaults.
@@ -60,6 +62,12 @@ pub trait Hooks: Send + Sync {
         false
     }
     fn progress(&self, _ev: ProgressEvent) {}
+    /// When true (and progress is captured), every forwarded progress call is
+    /// also fed to a real fancy-console state, which is painted after each
+    /// count update; the painted bytes arrive as `ProgressEvent::Frame`.
+    fn shadow_display(&self) -> bool {
+        false
+    }
     /// Terminal width override: Some(x) makes terminal::get_cols return x.
     fn cols(&self) -> Option<Option<usize>> {
         None
@@ -166,7 +174,29 @@ pub(crate) fn cols() -> Option<Option<usize>> {
 pub(crate) struct ForwardProgress;
 static FORWARD: ForwardProgress = ForwardProgress;
 
+static SHADOW: std::sync::Mutex<Option<crate::progress_fancy::VerifFancy>> =
+    std::sync::Mutex::new(None);
+
+fn with_shadow(f: impl FnOnce(&mut crate::progress_fancy::VerifFancy)) {
+    if let Some(h) = hooks() {
+        if h.shadow_display() {
+            let mut g = SHADOW.lock().unwrap_or_else(|e| e.into_inner());
+            f(g.get_or_insert_with(|| crate::progress_fancy::VerifFancy::new(false)));
+        }
+    }
+}
+
+pub(crate) fn on_frame(buf: &[u8]) {
+    if let Some(h) = hooks() {
+        if h.shadow_display() {
+            h.progress(ProgressEvent::Frame(buf.to_vec()));
+        }
+    }
+}
+
 pub(crate) fn progress_override() -> Option<&'static dyn Progress> {
+    // A new invocation starts with an empty display.
+    *SHADOW.lock().unwrap_or_else(|e| e.into_inner()) = None;
     match hooks() {
         Some(h) if h.capture_progress() => Some(&FORWARD),
         _ => None,
@@ -189,13 +219,19 @@ impl Progress for ForwardProgress {
         if let Some(h) = hooks() {
             h.progress(ProgressEvent::Update(counts_array(counts), counts.total()));
         }
+        with_shadow(|s| {
+            s.update(counts);
+            s.paint();
+        });
     }
     fn task_started(&self, id: BuildId, _build: &Build) {
+        with_shadow(|s| s.task_started(id, _build));
         if let Some(h) = hooks() {
             h.progress(ProgressEvent::TaskStarted { build: id.index() });
         }
     }
     fn task_output(&self, id: BuildId, line: Vec<u8>) {
+        with_shadow(|s| s.task_output(id, line.clone()));
         if let Some(h) = hooks() {
             h.progress(ProgressEvent::TaskOutput {
                 build: id.index(),
@@ -204,6 +240,7 @@ impl Progress for ForwardProgress {
         }
     }
     fn task_finished(&self, id: BuildId, _build: &Build, result: &TaskResult) {
+        with_shadow(|s| s.task_finished(id, _build, result));
         if let Some(h) = hooks() {
             h.progress(ProgressEvent::TaskFinished {
                 build: id.index(),
@@ -217,6 +254,7 @@ impl Progress for ForwardProgress {
         }
     }
     fn log(&self, msg: &str) {
+        with_shadow(|s| s.log(msg));
         if let Some(h) = hooks() {
             h.progress(ProgressEvent::Log(msg.to_owned()));
         }
